@@ -284,6 +284,20 @@ func (e *Env) eval(x SExpr) Term {
 			pv.T = types.NewPointer(to.T)
 			return pv
 		}
+		if x.Fun == "unboxas" && len(x.Args) == 2 {
+			// unboxas(TypeName, i): the value of (non-pointer) type TypeName held by interface value i
+			id, ok := x.Args[0].(SIdent)
+			if !ok {
+				e.fail("unboxas(TypeName, iface)")
+			}
+			to := fc.resolveType(e.pkgName, id.Name)
+			iv := e.eval(x.Args[1])
+			if iv.Sort != SIface || to.T == nil {
+				e.fail("unboxas(%s, ...): needs an interface value and a named type", id.Name)
+			}
+			_, unbox := fc.boxFuncs(to.Sort)
+			return mk(fmt.Sprintf("(%s (i_val %s))", unbox, iv.S), to.Sort, to.T)
+		}
 		if x.Fun == "elemOwner" && len(x.Args) == 2 {
 			// elemOwner(TypeName, p): the object of struct type TypeName one of whose array fields
 			// contains the element that p points to
